@@ -575,6 +575,17 @@ func c10(r *vc.Run) int {
 	var maxCPU atomic.Int64
 	var confirmedMu sync.Mutex
 	confirmed := map[string]bool{}
+	// the recorded witness of the listed pdfcpu finding is replayed on every run, whatever VERIF_SEED is
+	witnessSeed, witnessIdx := int64(1), 43646
+	if r.IsKnown("hang@internal/pkg/postprocessor/extractor.PDF->pdfcpu/pdfcpu/pkg/api") && !(r.Seed == witnessSeed && witnessIdx < total) {
+		sc := c10Scenario{Seed: witnessSeed, Start: witnessIdx, End: witnessIdx + 1, CPUBudget: budget, MemLimitMB: memMB}
+		dir := filepath.Join(r.Scratch, "c10-witness")
+		runChild(os.Getenv("VZ_BIN"), "c10", sc, dir, 10*time.Minute)
+		if hb, err := os.ReadFile(filepath.Join(dir, "hang")); err == nil && len(hb) > 0 {
+			st, _ := os.ReadFile(filepath.Join(dir, "hang-stacks.txt"))
+			r.Violation("hang@"+hangFrame(string(st)), fmt.Sprintf("witness input %d of seed %d still spins in %s", witnessIdx, witnessSeed, hangFrame(string(st))), c10Witness(witnessSeed, witnessIdx))
+		}
+	}
 	parallel(nWorkers, nWorkers, func(w int) {
 		start, end := w*per, (w+1)*per
 		restarts, hangs := 0, 0
